@@ -18,6 +18,7 @@
 -/
 import Lumina.Proofs.C13Share
 import Lumina.Proofs.NmtMultiShare
+import Lumina.Proofs.NmtMultiShareBuild
 import Lumina.Props.C04   -- only for the concrete square of the non-vacuity example
 
 namespace Lumina.Props.C13
@@ -361,6 +362,82 @@ theorem shareproof_verify_sound_or_collision [DecidableEq D] (H : HashFns D) (h 
     obtain ⟨x, y, h1, h2⟩ := this
     exact ⟨x, y, h2, h1⟩
 
+open Lumina.Model.ShareProof (ShareProof) in
+open Lumina.Model.Eds (Eds Dah) in
+/-- **share proofs built from a DAH verify against its hash** (the honest construction: for `ranges.length` consecutive
+    rows starting at `r0`, the shares of a column range and `row_nmt(row).build_range_proof(range)`, plus
+    `dah.row_proof(r0..=r0+len-1)`): for every square with the quadrant parity flags, shares of at least 29 bytes and
+    width ≤ 65535 whose DAH exists, every non-empty list of non-empty in-width ranges inside the square whose shares all
+    carry the namespace `ns`, the proof is built and `ShareProof::verify` accepts it against `dah.hash()`.
+    Needs only that the NMT hash has 32-byte output (so that a root survives `to_array`/`from_raw`); no collision
+    hypothesis.  Rests on `NmtMulti.range_complete` (multi-leaf range-proof completeness for any tree size). -/
+theorem shareproof_build_complete [DecidableEq D] (H : HashFns D) (h : Lumina.Model.Nmt.HashFn)
+    (hl : Lumina.Proofs.Nmt.HashLen h) (e : Eds) (hsq : Lumina.Proofs.NsData.SquareShape e) (hw : e.width ≤ 65535)
+    (dah : Dah) (hd : Dah.ofEds h e = .ok dah) (ns : Bytes) (r0 : Nat) (ranges : List (Nat × Nat))
+    (hne : ranges ≠ []) (hrows : r0 + ranges.length ≤ e.width)
+    (hrg : ∀ i s en shares, ranges[i]? = some (s, en) → e.row? (r0 + i) = some shares →
+      s < en ∧ en ≤ e.width ∧ ∀ sh ∈ (shares.drop s).take (en - s), sh.ns = ns) :
+    specShareBuild
+      (match Lumina.Model.ShareProof.build H h e dah ns r0 ranges with
+       | .ok sp => shareResOf (Lumina.Model.ShareProof.verify H h sp
+           (some (Lumina.Model.RowProof.dahHash H (dah.rowRoots.map Lumina.Model.Nmt.NsHash.toBytes)
+             (dah.colRoots.map Lumina.Model.Nmt.NsHash.toBytes))))
+       | .err => .err
+       | .panic => .panic) = true := by
+  obtain ⟨hrl, hcl, _, _⟩ := Lumina.Proofs.Eds.dah_ofEds_roots hd
+  have hlen1 : 1 ≤ ranges.length := by
+    cases ranges with
+    | nil => exact absurd rfl hne
+    | cons a t => simp
+  have hall : dah.allRootsBytes = dah.rowRoots.map Lumina.Model.Nmt.NsHash.toBytes ++
+      dah.colRoots.map Lumina.Model.Nmt.NsHash.toBytes := by
+    unfold Dah.allRootsBytes; rw [List.map_append]
+  have hsz : (dah.rowRoots.map Lumina.Model.Nmt.NsHash.toBytes ++
+      dah.colRoots.map Lumina.Model.Nmt.NsHash.toBytes).length ≤ 2 ^ 63 := by
+    simp only [List.length_append, List.length_map, hrl, hcl]; omega
+  have hrb := rowproof_build_complete H (dah.rowRoots.map Lumina.Model.Nmt.NsHash.toBytes)
+    (dah.colRoots.map Lumina.Model.Nmt.NsHash.toBytes) r0 (r0 + ranges.length - 1) hsz
+  cases hrp : Lumina.Model.RowProof.rowProof H (dah.rowRoots.map Lumina.Model.Nmt.NsHash.toBytes)
+      (dah.colRoots.map Lumina.Model.Nmt.NsHash.toBytes) r0 (r0 + ranges.length - 1) with
+  | error er =>
+    rw [hrp] at hrb
+    simp only [specRowBuild, List.length_map, hrl, decide_eq_true_eq] at hrb
+    omega
+  | ok rp =>
+    rw [hrp] at hrb
+    have hse : r0 ≤ r0 + ranges.length - 1 := by omega
+    simp only [specRowBuild, hse, ↓reduceIte, Bool.and_eq_true, beq_iff_eq, decide_eq_true_eq, rowObsOf,
+      List.length_map] at hrb
+    obtain ⟨⟨⟨_, hst⟩, hen⟩, ⟨⟨⟨_, hrrl⟩, hpo⟩, hver⟩⟩ := hrb
+    have hrv : Lumina.Model.RowProof.verify H rp (some (Lumina.Model.RowProof.dahHash H
+        (dah.rowRoots.map Lumina.Model.Nmt.NsHash.toBytes) (dah.colRoots.map Lumina.Model.Nmt.NsHash.toBytes))) = .ok := by
+      cases hv : Lumina.Model.RowProof.verify H rp (some (Lumina.Model.RowProof.dahHash H
+        (dah.rowRoots.map Lumina.Model.Nmt.NsHash.toBytes) (dah.colRoots.map Lumina.Model.Nmt.NsHash.toBytes))) with
+      | ok => rfl
+      | err er => rw [hv] at hver; simp [rowResOf] at hver
+      | panic => rw [hv] at hver; simp [rowResOf] at hver
+    rw [← hall] at hpo
+    obtain ⟨d, ps, hbl, hpsl, hdl, hsn, hrloop⟩ := Lumina.Proofs.NmtMulti.buildLoop_ok H hl hd hsq.size hw ns ranges r0
+      rp.rowRoots (rp.proofs.map obsOf) hrows (by omega) hpo hrg
+    have hbuild : Lumina.Model.ShareProof.build H h e dah ns r0 ranges =
+        .ok { data := d, namespaceId := ns, shareProofs := ps, rowProof := rp } := by
+      unfold Lumina.Model.ShareProof.build
+      simp only [hbl, hrp]
+    rw [hbuild]
+    simp only
+    have hd32 : 0 + d.length ≤ Lumina.Model.ShareProof.u32Max := by
+      have h1 : ranges.length * e.width ≤ 65535 * 65535 := Nat.mul_le_mul (by omega) hw
+      simp [Lumina.Model.ShareProof.u32Max]; omega
+    have hsn0 := hsn 0 hd32
+    unfold Lumina.Model.ShareProof.verify Lumina.Model.ShareProof.verifyWith
+    simp only
+    rw [if_neg (by omega), hsn0]
+    simp only
+    rw [if_neg (by omega), hrv]
+    simp only
+    rw [hrloop]
+    rfl
+
 /-- the unconditional part: whatever the NMT is, an accepted share proof has one presence range
     proof with a non-empty range per proven row root, exactly as many shares as the ranges add up
     to, and an accepted row proof (hence all of `rowproof_verify_sound`) -/
@@ -450,5 +527,24 @@ example : Lumina.Proofs.NsData.SquareShape okEds ∧ okEds.width = 2 ^ 1 ∧
   refine ⟨⟨nonvacuity_okEds_valid.flags, fun sh hm => by rw [nonvacuity_okEds_valid.size sh hm]; decide⟩, rfl, rfl,
     nonvacuity_toyH32_len, termFns_innerInj, termFns_leafInj, ?_⟩
   decide +kernel
+
+open Lumina.Props.C04 (toyH32 okEds okDah nonvacuity_okEds_valid nonvacuity_toyH32_len) in
+/-- the hypotheses of `shareproof_build_complete` are met by the concrete square, row 0, range 0..1 of the all-zero
+    namespace (the proof it builds is `okShareProof` above) -/
+example : okEds.width ≤ 65535 ∧ ([(0, 1)] : List (Nat × Nat)) ≠ [] ∧ 0 + ([(0, 1)] : List (Nat × Nat)).length ≤ okEds.width ∧
+    (∀ i s en shares, ([(0, 1)] : List (Nat × Nat))[i]? = some (s, en) → okEds.row? (0 + i) = some shares →
+      s < en ∧ en ≤ okEds.width ∧ ∀ sh ∈ (shares.drop s).take (en - s), sh.ns = List.replicate 29 0) := by
+  refine ⟨by decide, by decide, by decide, ?_⟩
+  intro i s en shares hi hrow
+  cases i with
+  | succ j => simp at hi
+  | zero =>
+    simp only [List.getElem?_cons_zero, Option.some.injEq, Prod.mk.injEq] at hi
+    obtain ⟨rfl, rfl⟩ := hi
+    have h2 : okEds.row? (0 + 0) = some [⟨List.replicate 512 0, false⟩, ⟨List.replicate 512 1, true⟩] := by decide +kernel
+    rw [h2] at hrow
+    injection hrow with hrow
+    subst hrow
+    decide +kernel
 
 end Lumina.Props.C13
